@@ -75,7 +75,7 @@ class SimThread(object):
     __slots__ = (
         "idx", "name", "baton", "pending", "finished", "started", "exc", "root_key",
         "ident", "timed_out", "deadline", "dead", "inject", "obj", "is_client", "steps",
-        "blocked_site", "spin_key", "spin_epoch",
+        "blocked_site", "spin_key", "spin_epoch", "trash",
     )
 
     def __init__(self, idx, name):
@@ -99,6 +99,7 @@ class SimThread(object):
         self.blocked_site = None
         self.spin_key = None
         self.spin_epoch = -1
+        self.trash = []
 
 
 # ---------------------------------------------------------------------------
@@ -417,17 +418,17 @@ class Scheduler(object):
     def _preemptible(self, me, explicit):
         """Is the current scheduling point one where a preemption is offered?"""
         if explicit:
-            me.root_key = None
+            self._set_root(me, None)
             return True
         f = _getframe(1)
         while f is not None and _file_class(f.f_code.co_filename) == F_SHIM:
             f = f.f_back
         if f is None:
-            me.root_key = None
+            self._set_root(me, None)
             return False
         c = _file_class(f.f_code.co_filename)
         if c == F_LIB:
-            me.root_key = None
+            self._set_root(me, None)
             return True
         atomic = (F_ATOMIC, F_STDFUT) if self.gran == 0 else (F_ATOMIC,)
         if c in atomic:
@@ -443,7 +444,7 @@ class Scheduler(object):
             # identity of the outermost stdlib frame; a strong reference is kept until the
             # thread's next scheduling point so that the address cannot be reused meanwhile
             same = root is me.root_key
-            me.root_key = root
+            self._set_root(me, root)
             if same:
                 return False
             # entry into a stdlib call: preemptible iff called (transitively) from library code
@@ -453,10 +454,39 @@ class Scheduler(object):
             if cc == F_STDFUT and self.gran >= 1:
                 return True
             return False
-        me.root_key = None
+        self._set_root(me, None)
         if c == F_STDFUT:  # gran >= 1
             return True
         return False
+
+    @staticmethod
+    def _set_root(me, root):
+        """Replace the remembered root frame without freeing the old one here: releasing a frame
+        may free objects whose weakref callbacks perform lock operations, which must not
+        re-enter the scheduler in the middle of a decision.  The old frame is dropped at the
+        beginning of the thread's next operation (see _flush)."""
+        old = me.root_key
+        me.root_key = root
+        if old is not None and old is not root:
+            me.trash.append(old)
+
+    @staticmethod
+    def _flush(me):
+        t = me.trash
+        me.trash = []
+        del t
+
+    def _flush_if_safe(self, me):
+        """Drop deferred frame references at the end of an operation, but only when the
+        operation was issued by library / harness code: inside a stdlib method (e.g. between
+        the two statements of _PyRLock.release) a weakref callback taking the same lock
+        would be an artifact of running the pure-Python RLock."""
+        try:
+            c = _file_class(_getframe(3).f_code.co_filename)
+        except ValueError:
+            return
+        if c in (F_LIB, F_OTHER):
+            self._flush(me)
 
     # ------------------------------------------------------------- decisions
     def _deadlock_info(self):
@@ -609,6 +639,8 @@ class Scheduler(object):
             lock.owner = me
             if self.lock_events is not None:
                 self.lock_events.append((me.idx, "acq", id(lock)))
+            if me.trash:
+                self._flush_if_safe(me)
             return True
         return False
 
@@ -623,6 +655,8 @@ class Scheduler(object):
         lock.owner = None
         if self.lock_events is not None:
             self.lock_events.append((me.idx, "rel", id(lock)))
+        if me.trash:
+            self._flush_if_safe(me)
 
     def op_sleep(self, me, d):
         self._mk_deadline(me, d)
@@ -636,6 +670,8 @@ class Scheduler(object):
         me.pending = ("point",)
         self._yield(me, explicit=True)
         me.pending = None
+        if me.trash:
+            self._flush_if_safe(me)
 
     def op_spin_yield(self, me):
         me.pending = ("yield",)
@@ -702,6 +738,7 @@ class Scheduler(object):
                 sys.setprofile(None)
                 try:
                     t.root_key = None  # may free objects (weakref callbacks run as this thread)
+                    self._flush(t)
                 except BaseException:  # noqa
                     pass
                 t.finished = True
@@ -784,6 +821,7 @@ class Scheduler(object):
             main.finished = True
             self.mode = TEARDOWN
             main.root_key = None
+            main.trash = []
             stuck = self._teardown()
             CUR = None
             self.mode = IDLE
